@@ -145,6 +145,20 @@ TEXT_RULE = ("cases are generated from one xoshiro256** state seeded by VERIF_SE
              "non-trivial when its oracle is applicable (spec not n/a) and distinct by its full case line")
 
 PROPS = {
+    "C19": {
+        "binary": True,
+        "binary_cases": binchecks.c19_cases,
+        "rule": "in-process: the real LSCodec behind tokio-util FramedRead over a chunked AsyncRead; sessions of 1-4 frames with 24 header "
+                "variants (LF-only, extra/third header, lower-case name, padded/+/empty/garbage length, wrong lengths, non-JSON body, "
+                "cut-off sessions), random k-way chunkings: DEC (message sequence + terminal status: impl vs Lean model incl. the httparse "
+                "model), PROPSPLIT (all two-way splits and byte-wise delivery decode like the unsplit stream, on both sides), ENC "
+                "(encode = Content-Length of the byte length). Binary level: a non-ASCII session, all two-way splits (quick: every 7th), "
+                "random k-way splits, byte-wise and delayed delivery must yield the same responses, diagnostics and exit status; every "
+                "emitted frame's Content-Length must equal the byte length of its JSON body. " + TEXT_RULE,
+        "unproved_parts": ["EnvOK (stability under extension) is assumed for httparse::parse_headers; for the concrete Lean httparse model "
+                           "it is validated differentially (DEC/PROPSPLIT), not yet proved",
+                           "OS pipe delivery and write delays cannot be exhibited by the model; covered by the binary runs only"],
+    },
     "C18": {
         "binary": True,
         "no_harness_gen": True,
